@@ -42,6 +42,8 @@ def base_labels(case):
         labels.append('tmpl-' + info['template'])
     if info.get('tapered'):
         labels.append('tapered')
+    if info.get('sheared'):
+        labels.append('sheared')
     if info.get('tag_style'):
         labels.append('tags-' + info['tag_style'])
     if any(o.get('_rev') for o in case['objs']):
